@@ -96,3 +96,68 @@ async fn stripped_transaction_is_rejected() {
         witness(format!("a block whose transaction list was altered after signing (one payment stripped; merkle_root in the signed header no longer matches the transactions carried) was accepted under the original hash: add_block → {:?}", res));
     }
 }
+
+/// C18: the lite block carries the same id / hash / signature / header, every transaction touching a listed key verbatim,
+/// and placeholders whose replacement counts account for every omitted transaction; its merkle root equals the full one
+#[test]
+fn lite_block_contract() {
+    let mut rng = Rng::from_env();
+    let keys: Vec<SaitoPublicKey> = (0..4).map(|i| [i as u8 + 1; 33]).collect();
+    for round in 0..300 {
+        let mut b = Block::new();
+        b.id = 5; b.timestamp = rng.next(); b.previous_block_hash = rng.arr(); b.creator = rng.arr(); b.signature = rng.arr(); b.hash = rng.arr(); b.burnfee = rng.next(); b.treasury = rng.next();
+        let n = rng.below(12) as usize;
+        for i in 0..n {
+            let mut tx = Transaction::default();
+            tx.timestamp = i as u64; tx.signature = rng.arr();
+            let mut s = Slip::default(); s.public_key = keys[rng.below(4) as usize]; s.amount = 1 + rng.below(9); tx.from.push(s);
+            let mut o = Slip::default(); o.public_key = keys[rng.below(4) as usize]; o.amount = 1; tx.to.push(o);
+            if rng.below(7) == 0 { tx.transaction_type = TransactionType::GoldenTicket; }
+            tx.generate_hash_for_signature();
+            b.transactions.push(tx);
+        }
+        b.merkle_root = b.generate_merkle_root(false, false);
+        let watch: Vec<SaitoPublicKey> = keys.iter().filter(|_| rng.below(3) == 0).cloned().collect();
+        let lite = b.generate_lite_block(watch.clone());
+        let desc = format!("round {}: {} txs, {} watched keys", round, n, watch.len());
+        if lite.id != b.id || lite.hash != b.hash || lite.signature != b.signature || lite.creator != b.creator || lite.previous_block_hash != b.previous_block_hash
+            || lite.timestamp != b.timestamp || lite.burnfee != b.burnfee || lite.treasury != b.treasury { witness(format!("lite block header differs from the full block: {}", desc)); }
+        for tx in b.transactions.iter() {
+            let touches = tx.from.iter().any(|s| watch.contains(&s.public_key)) || tx.to.iter().any(|s| watch.contains(&s.public_key)) || tx.transaction_type == TransactionType::GoldenTicket;
+            if touches && !lite.transactions.iter().any(|t| t == tx) { witness(format!("a transaction touching a watched key is not carried verbatim: {}", desc)); }
+        }
+        let weight: u64 = lite.transactions.iter().map(|t| if t.transaction_type == TransactionType::SPV { t.txs_replacements as u64 } else { 1 }).sum();
+        if weight != n as u64 { witness(format!("placeholders account for {} transactions, the full block has {}: {}", weight, n, desc)); }
+        if n > 0 && lite.merkle_root != b.merkle_root { witness(format!("lite block merkle root differs from the full block's: {}", desc)); }
+    }
+}
+
+/// C18, last sentence: the placeholder entries are sufficient to recompute the transaction commitment of the header
+#[test]
+fn lite_block_commitment_recomputable() {
+    let mut rng = Rng::from_env();
+    let keys: Vec<SaitoPublicKey> = (0..4).map(|i| [i as u8 + 1; 33]).collect();
+    for n in 1..12usize {
+        for pattern in 0..8u64 {
+            let mut b = Block::new();
+            b.id = 5;
+            let mut relevant = vec![];
+            for i in 0..n {
+                let mut tx = Transaction::default();
+                tx.timestamp = i as u64; tx.signature = rng.arr();
+                let watched = (pattern >> (i % 3)) & 1 == 1 && pattern != 0;
+                let mut s = Slip::default(); s.public_key = if watched { keys[0] } else { keys[1] }; s.amount = 1; tx.from.push(s);
+                let mut o = Slip::default(); o.public_key = keys[2]; o.amount = 1; tx.to.push(o);
+                tx.generate_hash_for_signature();
+                relevant.push(watched);
+                b.transactions.push(tx);
+            }
+            b.merkle_root = b.generate_merkle_root(false, false);
+            let lite = b.generate_lite_block(vec![keys[0]]);
+            if lite.generate_merkle_root(false, false) != b.merkle_root {
+                witness(format!("the header's transaction commitment cannot be recomputed from the lite block: full block of {} transactions, watched pattern {:?} → lite entries (type, replacements) {:?}", n, relevant,
+                    lite.transactions.iter().map(|t| (if t.transaction_type == TransactionType::SPV { "placeholder" } else { "full" }, t.txs_replacements)).collect::<Vec<_>>()));
+            }
+        }
+    }
+}
